@@ -34,7 +34,7 @@ NOISE = ["", " ", ";", "=", ",", "\x00", "\xff\xfe", "é", "a" * 5000, "9" * 500
 VALID = {
     "Accept": ["text/html, application/json;q=0.9, */*;q=0.8"],
     "Content-Type": ["application/json; charset=utf-8", "multipart/form-data; boundary=abc", "application/x-www-form-urlencoded; charset=latin-1"],
-    "Content-Length": ["10"],
+    "Content-Length": ["10", "1\xb2", "\xb9", "\xb3\xb2", "+5", " 7 ", "1_0", "0x10", "1e3", "-0", "\u0661\u0662"],
     "Cookie": ['a=b; c="d\\073e"; f'],
     "Date": ["Wed, 21 Oct 2015 07:28:00 GMT", "Tue, 15 Nov 1994 08:12:31", "Tue, 15 Nov 1994 08:12:31 -0000", "15 Nov 1994 08:12",
              "1 Jan 24 99999999999999999999:00", "1 Jan 0001 00:00:00 +2300", "31 Dec 9999 23:59:59 -2300"],
